@@ -17,7 +17,7 @@ RULE = ("cases: (backend sqlite/pickle, metric flag, crs strings, operation list
         "add_edges (with no_index / no_commit), reindex_nodes / reindex_edges / commit and reopen (1-4 cycles, the last operation "
         "is always a reopen); before a reopen the documented obligations are met (deferred commits committed, deferred indexes "
         "rebuilt); non-trivial = at least one reopen of a map with >=2 nodes and >=1 edge; distinct = case JSON")
-ASSUMPTIONS = ["labels: non-negative ints for SQLite, ints or strings for the pickle", "every edge joins existing nodes; no node is added twice; "
+ASSUMPTIONS = ["labels: non-negative ints for SQLite, ints or strings for the pickle", "every edge joins existing nodes; a node is added twice only with ignore_doubles=True (documented to be ignored); "
                "bulk add_edges never repeats an edge (plain INSERT)", "a user who never commits a no_commit insert is outside the property",
                "spatial queries compared on 3 drawn (location, radius) pairs per case",
                "a third of the SQLite histories are additionally reopened by a second interpreter started with another PYTHONHASHSEED"]
